@@ -63,7 +63,7 @@ def has_no_utc_offset(entered_input: str) -> EvaluatedFormatConstraint:
         return error_result
     original_time = date_time.time()  # type:ignore[union-attr]
     utc_time = date_time.astimezone(tz=utc).time()  # type:ignore[union-attr]
-    if utc_time == original_time and utc_time.hour == 0 and utc_time.minute == 0 and utc_time.second == 0:
+    if utc_time == original_time:
         return EvaluatedFormatConstraint(format_constraint_fulfilled=True, error_message=None)
     error_message = f"The provided date time '{entered_input}' has a UTC offset of {utc_time}."
     return EvaluatedFormatConstraint(format_constraint_fulfilled=False, error_message=error_message)
